@@ -10,13 +10,19 @@ reg('C09', engine='h_storage', level='exploration',
          '3:2:4:5:2 (state round trips : partial copies : StateStorage : PlannerDataStorage : control::PlannerDataStorage); '
          'non-trivial = space with at least one leaf / related pair with a common component / at least one stored state / at '
          'least one stored vertex; distinct = distinct (space signature, stream bytes) hash',
-    floors={'quick': {'c09_states': 2000, 'c09_partial_copies': 350, 'c09_ss_roundtrips': 120, 'c09_pd_roundtrips': 200,
-                      'c09_pd_graphs_control': 60, 'c09_truncation_offsets': 500000, 'c09_streams_truncated_exhaustively': 300,
-                      'c09_streams_truncated_strided': 30, 'c09_wrong_marker_loads': 4000, 'c09_foreign_signature_loads': 400,
-                      'c09_pd_graphs_storing_start_and_goal_vertex': 40, 'c09_pd_graphs_with_removed_vertices': 100,
-                      'c09_spaces_with_zero_length_member': 15, 'c09_spaces_with_wrapper': 15, 'c09_spaces_nested_depth_3': 8},
-            'thorough': {'c09_states': 8000, 'c09_partial_copies': 1400, 'c09_ss_roundtrips': 480, 'c09_pd_roundtrips': 800,
-                         'c09_truncation_offsets': 2000000, 'c09_streams_truncated_exhaustively': 1200}},
+    floors={'quick': {'c09_states': 9000, 'c09_partial_copies': 1000, 'c09_partial_expected_ALL': 20, 'c09_partial_expected_SOME': 18,
+                      'c09_partial_expected_NO': 5, 'c09_ss_roundtrips': 100, 'c09_ss_streams_with_metadata': 40,
+                      'c09_pd_roundtrips': 180, 'c09_pd_graphs_control': 50, 'c09_pd_graphs_storing_start_and_goal_vertex': 25,
+                      'c09_pd_graphs_goal_marks_out_of_order': 50, 'c09_pd_graphs_multi_start': 75,
+                      'c09_pd_graphs_with_removed_vertices': 90, 'c09_pd_loads_into_used_planner_data': 40,
+                      'c09_truncation_offsets': 450000, 'c09_streams_truncated_exhaustively': 250,
+                      'c09_streams_truncated_strided': 30, 'c09_wrong_marker_loads': 3500, 'c09_foreign_signature_loads': 340,
+                      'c09_spaces_with_zero_length_member': 8, 'c09_spaces_with_wrapper': 18, 'c09_spaces_nested_depth_3': 4},
+            'thorough': {'c09_states': 36000, 'c09_partial_copies': 4000, 'c09_ss_roundtrips': 400, 'c09_pd_roundtrips': 720,
+                         'c09_pd_graphs_control': 200, 'c09_pd_graphs_storing_start_and_goal_vertex': 100,
+                         'c09_truncation_offsets': 1800000, 'c09_streams_truncated_exhaustively': 1000,
+                         'c09_streams_truncated_strided': 120, 'c09_wrong_marker_loads': 14000, 'c09_foreign_signature_loads': 1360,
+                         'c09_spaces_with_zero_length_member': 32, 'c09_spaces_with_wrapper': 72, 'c09_spaces_nested_depth_3': 16}},
     level_text='exploration: seeded random generation of spaces, states and graphs for the round-trip clauses (no completeness '
                'claim over spaces or graphs); fault enumeration for the corruption clause: for every generated stream of at most '
                '8 KB EVERY truncation length 0..n-1 is fed to the loader (longer streams: every length in the header and tail '
